@@ -656,22 +656,29 @@ type c37Totals struct {
 	execs    int64
 	outcomes int
 	names    []string
+	cut      int // scenarios not explored exhaustively (time budget)
 }
 
-func c37Explore(r *ev.R, specs []c37Spec) c37Totals {
+func c37Explore(r *ev.R, specs []c37Spec, nDeep int) c37Totals {
 	var tot c37Totals
-	// VERIF_SEED only permutes the order in which the scenarios are explored
-	order := make([]int, len(specs))
-	for i := range order {
-		order[i] = i
-	}
-	if n := len(order); n > 1 {
+	// VERIF_SEED only permutes the order in which the scenarios are explored (a rotation inside
+	// the cheap group and inside the trailing group of nDeep expensive scenarios)
+	order := make([]int, 0, len(specs))
+	rotate := func(lo, hi int) {
+		n := hi - lo
+		if n <= 0 {
+			return
+		}
 		rot := int(r.Seed() % int64(n))
 		if rot < 0 {
 			rot += n
 		}
-		order = append(order[rot:], order[:rot]...)
+		for k := 0; k < n; k++ {
+			order = append(order, lo+(k+rot)%n)
+		}
 	}
+	rotate(0, len(specs)-nDeep)
+	rotate(len(specs)-nDeep, len(specs))
 	only := os.Getenv("C37_ONLY") // debugging aid: explore only scenarios whose name contains this
 	for _, i := range order {
 		if only != "" && !strings.Contains(specs[i].Name, only) {
@@ -686,6 +693,9 @@ func c37Explore(r *ev.R, specs []c37Spec) c37Totals {
 		}
 		tot.execs += st.Executions
 		tot.outcomes += st.Outcomes
+		if !st.Exhaustive {
+			tot.cut++
+		}
 		tot.names = append(tot.names, specs[i].Name)
 	}
 	return tot
@@ -695,8 +705,13 @@ func c37Guards(r *ev.R, tot c37Totals, minExec int64, need ...string) {
 	if r.Replay() != nil {
 		return
 	}
-	r.Guard("executions", tot.execs >= minExec, "executions=%d (min %d) over %d scenarios", tot.execs, minExec, len(tot.names))
-	r.Guard("outcomes", tot.outcomes >= 3*len(tot.names), "sum of distinct observation vectors=%d", tot.outcomes)
+	if tot.cut > 0 {
+		minExec = 1 // a run cut by the time budget reports exhaustive=false; it is not vacuous by itself
+	}
+	r.Guard("executions", tot.execs >= minExec, "executions=%d (min %d) over %d scenarios, %d cut by the time budget", tot.execs, minExec, len(tot.names), tot.cut)
+	if tot.cut == 0 {
+		r.Guard("outcomes", tot.outcomes >= 3*len(tot.names), "sum of distinct observation vectors=%d", tot.outcomes)
+	}
 	keys := make([]string, 0, len(c37Seen))
 	for k := range c37Seen {
 		keys = append(keys, k)
@@ -709,6 +724,12 @@ func c37Guards(r *ev.R, tot c37Totals, minExec int64, need ...string) {
 	}
 	r.Count("executions_repeating_a_fingerprint_already_reported_in_another_scenario", c37Repeats)
 	for _, n := range need {
+		if tot.cut > 0 && c37Seen[n] == 0 {
+			// the time budget cut the run before the scenarios showing this feature: the sections say
+			// exhaustive=false; a coverage guard is only meaningful for a complete run
+			r.Guard("seen-"+n, true, "not evaluated: %d scenarios were cut by the time budget (exhaustive=false)", tot.cut)
+			continue
+		}
 		r.Guard("seen-"+n, c37Seen[n] > 0, "executions/tasks exhibiting %q: %d (all: %s)", n, c37Seen[n], strings.Join(parts, " "))
 	}
 }
@@ -764,12 +785,36 @@ func TestVerifC37(t *testing.T) {
 	r.Assume("pkg/goroutine is rewritten at spawn level only: its atomics and short mutex sections are not scheduling points")
 	r.Assume("handlers and the cancellation hook never block or fail; CancelRunningOnClose and observers are not exercised")
 	r.Assume("exactly-once is required only when Close returned nil; when Close returns its context's error only at-most-once is required (documented: Close drains until ctx expires)")
-	var specs []c37Spec
-	specs = append(specs, c37PoolSpecs(r)...)
-	specs = append(specs, c37BatchSpecs(r)...)
-	specs = append(specs, c37WQSpecs(r)...)
-	specs = append(specs, c37MailboxSpecs(r)...)
-	tot := c37Explore(r, specs)
+	// order: the four drivers interleaved, cheaper (parameterised, lower bound) scenarios first, so
+	// that a run cut by the time budget still covers every driver evenly
+	fams := [][]c37Spec{c37PoolSpecs(r), c37BatchSpecs(r), c37WQSpecs(r), c37MailboxSpecs(r)}
+	var specs, deep []c37Spec
+	maxBound := 0
+	for _, f := range fams {
+		for _, sp := range f {
+			if sp.Bound > maxBound {
+				maxBound = sp.Bound
+			}
+		}
+	}
+	for i := 0; ; i++ {
+		any := false
+		for _, f := range fams {
+			if i < len(f) {
+				any = true
+				if r.Thorough() && f[i].Bound == maxBound {
+					deep = append(deep, f[i])
+				} else {
+					specs = append(specs, f[i])
+				}
+			}
+		}
+		if !any {
+			break
+		}
+	}
+	specs = append(specs, deep...)
+	tot := c37Explore(r, specs, len(deep))
 	c37Guards(r, tot, 2000, "admitted", "rejected-full", "rejected-closed", "rejected-ctx", "close-nil", "close-ctx-error",
 		"cancel-hook", "batch-of-2+", "shard-with-2+-items", "two-shards-used", "two-keys-one-shard")
 }
